@@ -1007,6 +1007,53 @@ class Symx:
             else:
                 st.env[key] = self.fresh_symbol('%s@loop%d' % (self.lv_name(node), s['l']), node.get('ty'))
 
+    def loop_step(self, s, st):
+        """One symbolic iteration of loop s from state st: every lvalue assigned in the loop gets an entry symbol.
+        Returns (entry: key -> symbol, paths: [State]) where each path's env holds the values after one iteration and
+        its conds (beyond those of st) the branch conditions taken; the loop condition itself is returned as well."""
+        assigned = self.assigned_in(s)
+        body_st = st.fork()
+        entry = {}
+        for key, node in assigned.items():
+            old = st.env.get(key)
+            if isinstance(old, Arr) or self.is_array_ty(node.get('ty', '')):
+                a = Arr(self.lv_name(node) + '@in')
+                body_st.env[key] = a
+                entry[key] = a
+            else:
+                sym_in = self.symbol('%s@in' % self.lv_name(node), node.get('ty'))
+                entry[key] = sym_in
+                body_st.env[key] = sym_in
+        if s['k'] == 'For' and s.get('init') is not None and s['init']['k'] == 'Decl':
+            for d in s['init']['decls']:
+                sym_in = self.symbol('%s@in' % d['name'], d.get('ty'))
+                entry[d['id']] = sym_in
+                body_st.env[d['id']] = sym_in
+        cond = None
+        if s.get('cond') is not None and s['k'] != 'Do':
+            cond = self.as_bool(self.sym(s['cond'], body_st))
+        n0 = len(body_st.conds)
+        live, done = self.exec_loop_body(s['body'], [body_st])
+        if s['k'] == 'For' and s.get('inc') is not None:
+            for p in live:
+                self.sym_or_name(s['inc'], p)
+        return entry, cond, live, done, n0
+
+    def exec_loop_body(self, body, states):
+        """Like exec, but `break`/`continue` end the iteration (recorded as outcomes 'break'/'continue')."""
+        saved = self.exec
+        outer = self
+
+        def ex(s, sts):
+            if s is not None and s['k'] in ('Break', 'Continue') and sts:
+                return [], [Outcome(s['k'].lower(), None, x, s) for x in sts]
+            return saved(s, sts)
+        self.exec = ex
+        try:
+            return saved(body, states)
+        finally:
+            self.exec = saved
+
     # counted loops ---------------------------------------------------------
     def counted(self, s, st):
         """Recognise for(T i = lo; i < hi; i++) -> (decl, lo, hi_exclusive) or None."""
